@@ -30,3 +30,12 @@ pub(crate) fn kani_forget_rowbuf(b: RowBuffer) {
 pub(crate) fn kani_forget_tagged(b: TaggedRowBuffer) {
     std::mem::forget(b);
 }
+
+/// Verification only: initialise, in place, just the two scalar fields of a RowBuffer that `len()` /
+/// `arity()` read (the pooled cell vector stays uninitialised and must never be touched or dropped).
+pub(crate) unsafe fn kani_write_total_rows(p: *mut RowBuffer, n_columns: usize, n: usize) {
+    unsafe {
+        std::ptr::addr_of_mut!((*p).n_columns).write(n_columns);
+        std::ptr::addr_of_mut!((*p).total_rows).write(n);
+    }
+}
